@@ -364,7 +364,7 @@ func schemaFind(sc, kind, name string) (uint32, bool) {
 
 // ------------------------------------------------------------------ cases
 
-const nWitness = 5
+const nWitness = 6
 
 func (area) Run(c *core.Ctx) error {
 	for i := 0; i < c.N; i++ {
@@ -386,6 +386,8 @@ func (area) Run(c *core.Ctx) error {
 			err = witnessUnsyncedCounter(c, db)
 		case 4:
 			err = witnessSeriesLimit(c, db)
+		case 5:
+			err = witnessSchemaFlushWindow(c, db)
 		default:
 			err = randomCase(c, rng, db)
 		}
